@@ -802,6 +802,7 @@ int main(void) {
 #endif
 #endif
   choose_utilities();
+  sel_calls = rank_calls = util_calls = rng_calls = 0;     /* count the step only (a random ROOT draws during construction) */
 #ifdef P_C09
   replica = inst;                                /* an identically prepared replica (same state, same history) */
   sel_fixed = 1;                                 /* replay re-evaluates select(): user callbacks are deterministic (C10's premise) */
